@@ -26,7 +26,7 @@ CONSTANTS Den,        \* sigma boundaries are multiples of 1/Den
 
 (* configuration constants (cfg files cannot spell negative numbers or tuples) *)
 QuickDivs == {-2, 0, 3}
-ThoroughDivs == {-3, -1, 0, 1, 2}
+ThoroughDivs == {-3, 0, 1, 2}
 AllDts == {<<1, 4>>, <<-1, 2>>, <<1, 1>>}
 
 VARIABLES cfg,   \* [b : boundaries (0..Den), d : divergences, dt]
